@@ -63,6 +63,8 @@ def check_c03(tier, replay=None):
         agg = merge(res)
         rep.add_tlc('StoneTok/edits-simulate', agg, {'MaxEdits': 3, 'num': 16 * 1250})
         rep.add_judged(agg)
+    from checks_sem import lit_stage
+    lit_stage(rep, 'C03', ('exlit', 'attr') if tier == 'quick' else ('exlit', 'attr', 'docref'))
     rep.exhaustive = True
     rep.coverage_extra['rule'] = ('every sequence of <= %d physical lines over a 33-letter line alphabet (indent 0/2/4/8 x plain/open/'
                                   'close/open-close/nested-open/trailing-comment/whitespace-only/comment + blank), each tokenised by the real Lexer (skeleton and '
